@@ -118,9 +118,11 @@ def table() -> dict[str, Prop]:
              "placeholder ends ([x, 0]) are patched with the cursor on every path to return True; the reference table's map "
              "entries obey the same identity (MAP); the cursor - hence every map end - never exceeds lineMax, which starts as the "
              "number of lines and is only shrunk within the region or restored: state.line <= state.lineMax at every return of "
-             "every block rule and of the dispatcher, as a co-inductive contract validated at every dispatch (LINECAP)",
+             "every block rule and of the dispatcher, as a co-inductive contract validated at every dispatch (LINECAP); the line scans "
+             "behind paragraphs, setext headings and reference definitions step over a line only after isEmpty of that line failed, "
+             "so those blocks contain and end on non-blank lines (NONBLANK)",
              [MP.rule_map, LC.rule_linecap],
-             not_decided="b < e, non-blank first / last line, nesting inside the parent's map, ordering of siblings and coverage of "
+             not_decided="b < e, non-blank first line and non-blank last line of the other block kinds, nesting inside the parent's map, ordering of siblings and coverage of "
                          "every non-blank line (line arithmetic over runtime tables); the line count of a reference definition "
                          "(a count of newlines, exempted with its reason in LINECAP)"))
     from .rules import ctx_rules as CX
@@ -226,6 +228,7 @@ def table() -> dict[str, Prop]:
     props["C04"].rules.append(TK.rule_move)
     from .rules import partial_rules as PT
     props["C01"].rules.append(PT.rule_partial)         # dict reads, optional regex matches, index / remove / next stay in their domain
+    props["C03"].rules.append(MP.rule_nonblank)        # inline containers / reference definitions contain and end on non-blank lines
     props["C03"].rules.append(TT.rule_unisplit)        # lines are split at LF only (no Unicode-aware splitlines on the source)
     props["C17"].rules.append(TT.rule_unisplit)
     props["C11"].rules.append(SW.rule_fanout)          # the same coherence through the facade
